@@ -1,3 +1,5 @@
 import PfVerif.Audit.Tool
 import PfVerif.Props.C18
+import PfVerif.Lemmas.C18Hedge
 #audit_module PfVerif.Props.C18
+#audit_module_ns PfVerif.Lemmas.C18Hedge PfVerif.C18Hedge
